@@ -397,4 +397,23 @@ def run(ctx, prog):
                 return ' | '.join(sorted('{' + ', '.join(sorted(re.sub(r"<map::Iter<'a, K, V> as iterator::Iterator>::next\(HashMap::iter\(arg:metadata\)\)@Some→Some\.0", 'kv', x) for x in m)) + '}' for m in cs)) or 'never'
             ctx.inst('C11.R4', 'MetadataInvertedIndex.%s' % f, 'removed under the conditions it is inserted under', bool(ci) and ci == cr and docs_ok,
                      'insert_doc: %s; remove_doc: %s' % (_fmt(ci), _fmt(cr)))
+    # rebuild completeness: the rebuild (recovery, preloaded construction, tombstone compaction) indexes EVERY live slot — the only slots it may skip are
+    # tombstones (alive[i] is None); any further skip condition (empty metadata, …) drops a live document from the alive set and from Not / empty filters
+    rb = ctx.body('C11.R4', 'MetadataInvertedIndex::rebuild_from')
+    if rb is not None:
+        ro = flow.Origin(rb)
+        ic = rb.calls_to('MetadataInvertedIndex::insert_doc')
+        if len(ic) != 1:
+            ctx.missing('C11.R4', 'rebuild_from: exactly one insert_doc call (found %d)' % len(ic))
+        else:
+            must = [p for i_, blk in enumerate(rb.blocks) if blk['t']['k'] == 'switch' and i_ in rb.live_blocks() for tg, p in flow.switch_edge_predicates(rb, i_, ro)
+                    if ic[0].bb not in rb.reach([0], avoid_edges=[(i_, tg)])]
+            allowed = [r'^variant\(range::next\(range::Range::Range\{0, cmp::min\(slice::len\(arg:metadata\), slice::len\(arg:alive\)\)\}\)\) = Some$',
+                       r'^!bool\[Option::is_none\(arg:alive\[\]\)\]$', r'^bool\[Option::is_some\(arg:alive\[\]\)\]$', r'^variant\(arg:alive\[\]\) = Some$']
+            extra = [p for p in must if not any(re.match(a, p) for a in allowed)]
+            args = [flow.render(ro.of_operand(a)) for a in ic[0].args[1:]]
+            ctx.inst('C11.R4', rb.short, 'every live slot is indexed: the only skip is the tombstone test', len(must) >= 2 and not extra and args[1:] == ['arg:metadata[]'],
+                     ('additional skip condition(s): %s' % [e[:90] for e in extra]) if extra else 'guards: %s; insert_doc(%s)' % ([m[:50] for m in must], ', '.join(a[:40] for a in args)))
+        users = sorted(set(c.body.short.split('::{')[0].split('::')[-1] for c in prog.callers_of('MetadataInvertedIndex::rebuild_from')))
+        ctx.inst('C11.R4', rb.short, 'used by construction, recovery and tombstone compaction', set(users) >= {'recover_with_hnsw_params_and_mode', 'compact_tombstones'}, 'callers: %s' % users)
     ctx.stat('functions_analysed', len(set(i['key'].split(' | ')[1] for i in ctx.instances)))
